@@ -48,9 +48,14 @@ const (
 	mCfgEnabled  = "checks{enabled}"
 	mCLIEnabled  = "--enabled"
 	mOffline     = "--offline"
+	// mDefault is not a switch but the reference point of all the others: the default configuration enables
+	// exactly the 27 documented names, so it must emit what a run with no enabled-list filtering at all
+	// (checks { enabled = [] }) emits.  Without it a defect that hides a check from its name in BOTH runs of a
+	// metamorphic pair would go unnoticed.
+	mDefault = "default-enabled-list"
 )
 
-var mechanisms = []string{mCfgDisabled, mCLIDisabled, mRuleDisable, mCfgEnabled, mCLIEnabled, mOffline}
+var mechanisms = []string{mDefault, mCfgDisabled, mCLIDisabled, mRuleDisable, mCfgEnabled, mCLIEnabled, mOffline}
 
 // documentedOnline is the list of checks whose documentation page says they
 // query Prometheus (docs/checks/**: "This check will query Prometheus servers" /
@@ -112,6 +117,7 @@ type variant struct {
 	cliDisabled []string
 	cliEnabled  []string
 	offline     bool
+	noFilter    bool // checks { enabled = [] }
 	ruleDisable []string
 	rulePos     string
 }
@@ -120,8 +126,11 @@ type variant struct {
 func buildConfig(c Case, v variant, url string) string {
 	cfg := strings.ReplaceAll(c.Config, urlMark, url)
 	var b strings.Builder
-	if len(v.cfgDisabled) > 0 || len(v.cfgEnabled) > 0 {
+	if len(v.cfgDisabled) > 0 || len(v.cfgEnabled) > 0 || v.noFilter {
 		b.WriteString("checks {\n")
+		if v.noFilter {
+			b.WriteString("  enabled = []\n")
+		}
 		if len(v.cfgEnabled) > 0 {
 			fmt.Fprintf(&b, "  enabled = [%s]\n", quoteList(v.cfgEnabled))
 		}
@@ -161,6 +170,8 @@ func variantFor(c Case) (variant, error) {
 	v := variant{rulePos: c.RulePos}
 	switch c.Mechanism {
 	case "":
+	case mDefault:
+		v.noFilter = true
 	case mCfgDisabled:
 		v.cfgDisabled = []string{c.Name}
 	case mCLIDisabled:
@@ -318,6 +329,8 @@ func expected(base []problem, name, mechanism string) []problem {
 			if !slices.Contains(documentedOnline, p.Reporter) {
 				out = append(out, p)
 			}
+		case mDefault:
+			out = append(out, p)
 		}
 	}
 	return out
@@ -331,6 +344,8 @@ func compare(base, got []problem, name, mechanism string) error {
 	}
 	var b strings.Builder
 	switch mechanism {
+	case mDefault:
+		fmt.Fprintf(&b, "%s: the default run (all documented names enabled; listed as expected) and the run without any enabled-list filtering (checks { enabled = [] }; listed as got) differ", mechanism)
 	case mOffline:
 		fmt.Fprintf(&b, "%s: problems are not the baseline minus the documented online checks", mechanism)
 	case mCfgEnabled, mCLIEnabled:
@@ -380,7 +395,9 @@ func checkCase(c Case, srv *promsrv.Server, base *runResult) (nontrivial bool, e
 		return false, fmt.Errorf("variant run failed: %w", got.Err)
 	}
 	rep := reporters(base.Problems)
-	if c.Mechanism == mOffline {
+	if c.Mechanism == mDefault {
+		nontrivial = len(rep) > 1
+	} else if c.Mechanism == mOffline {
 		on, off := 0, 0
 		for r := range rep {
 			if slices.Contains(documentedOnline, r) {
@@ -668,7 +685,7 @@ func genDoc(t *rapid.T) Case {
 func allPairs() [][2]string {
 	var out [][2]string
 	for _, m := range mechanisms {
-		if m == mOffline {
+		if m == mOffline || m == mDefault {
 			out = append(out, [2]string{"", m})
 			continue
 		}
@@ -847,13 +864,17 @@ func checkBinaryCase(bin string, c Case, srv *promsrv.Server, base []problem) (b
 			return false, fmt.Errorf("baseline: %w", err)
 		}
 	}
-	got, err := runBinary(bin, c, srv.URL, binFlags(c))
+	vc := c
+	if c.Mechanism == mDefault {
+		vc.Config = "checks {\n  enabled = []\n}\n" + c.Config
+	}
+	got, err := runBinary(bin, vc, srv.URL, binFlags(c))
 	if err != nil {
 		return false, err
 	}
 	rep := reporters(base)
 	nontrivial := rep[c.Name] > 0 && len(rep) > 1
-	if c.Mechanism == mOffline {
+	if c.Mechanism == mOffline || c.Mechanism == mDefault {
 		nontrivial = len(rep) > 1
 	}
 	return nontrivial, compare(base, got, c.Name, c.Mechanism)
@@ -876,9 +897,9 @@ func TestPropBinary(t *testing.T) {
 		if err != nil {
 			rt.Fatalf("baseline: %v", err)
 		}
-		for _, m := range []string{mCLIDisabled, mCLIEnabled, mOffline} {
+		for _, m := range []string{mDefault, mCLIDisabled, mCLIEnabled, mOffline} {
 			names := checks.CheckNames
-			if m == mOffline {
+			if m == mOffline || m == mDefault {
 				names = []string{""}
 			}
 			for _, n := range names {
